@@ -53,7 +53,7 @@ fn bnd_frame_lanes_ib() {
     kani::cover!(r.is_ok() && !has_fatal);
 }
 
-// @harness id=bnd_groupings_nopanic props=C04 kind=bnd tier=quick bound=lanes=0,fatal=1 fns=validate_inner_lane_groupings stubs=alloc::fmt::format
+// @harness id=bnd_groupings_nopanic props=C04 kind=bnd tier=thorough bound=lanes=0,fatal=1 fns=validate_inner_lane_groupings stubs=alloc::fmt::format
 // No precondition on the fatal lane number: it is the 5 LSB of a (possibly corrupted) data word id, 0..=31.
 #[kani::proof]
 #[kani::stub(alloc::fmt::format, stub_format_nonempty)]
